@@ -137,7 +137,7 @@ pub fn jobs(tier: Tier, seed: u64) -> Vec<Job> {
         let must = sh.w <= 2 && sh.x <= 1 && sh.s <= 2 && sh.t <= 2;
         cases.push((must, crate::case!(format!("is_monogamous {}", sh.show()), move || PV::List(vec![PV::OH(gen_oh(&sh, "f"))]), c17_monogamous, oracle_monogamous, 1)));
     }
-    let mut out = vec![];
+    let mut out = super::c07::conformance_jobs(tier, &[0, 1, 2, 4]);
     for (must, case) in cases {
         // dev profile (overflow panics) at width 16
         out.push(case_job(Case { name: format!("{} [dev]", case.name), ..case.clone() }, base_cfg(tier), per_job, must && tier == Tier::Quick));
